@@ -561,6 +561,7 @@ def check(run):
 
     # the workbench: every save gets a dictionary with an id of its own (the store is a module global)
     n_plain = len(probes)
+    wb_fixed_ids = set()
     for pi in range(n_plain):
         p = probes[pi]
         if p["kind"] == "bundle" or (run.tier != "thorough" and pi % 2 and p["variant"] not in ("witness", "zero-uuid", "v1-uuid")):
@@ -571,6 +572,10 @@ def check(run):
             plan.append((qi, "workbench.parse", cfg))
         if p["kind"] == "observable" and "id" not in p["data"]:
             continue
+        if p["variant"] in ("witness", "zero-uuid"):
+            if p["data"]["id"] in wb_fixed_ids:
+                continue            # the all-zero id cannot be made unique: one object per such id in the global store
+            wb_fixed_ids.add(p["data"]["id"])
         for cfg in cfgs.setdefault("workbench.save", cfg_grid("workbench.save", run.tier)):
             d = p["data"]
             if p["variant"] not in ("witness", "zero-uuid") and isinstance(d.get("id"), str) and "--" in d["id"]:
